@@ -101,6 +101,12 @@ claimed = {
   technique=TECH + "; goroutine schedules enumerated exhaustively up to a preemption bound (scheduling points: channel operations, select, ledger lock, atomics, first dag lock of each dag call, storage calls)",
   bounds=["1..3 ancestors below the tip (2..4 for truncate), cancellation point 0..n+1, preemption bound 2 (quick) / 3 (thorough)", "truncate depth 1..n via the harness redirect of newHashAtDepth", "stream-vs-writer: bug-hunting search (not exhaustive) because of the known lock cycle"],
   outside=["schedules needing more preemptions; longer histories; more than one concurrent operation besides the walker goroutines (pairs of operations are C03/C18)", "badger and the logger are models / doubles"]),
+ "C18": dict(
+  text="Workloads of concurrent ledger operations on a loaded node (two proposals + one gossip delivery; a proposal against balance / vertex / history / transaction reads; a DAG stream against a balance read; a truncation against lock-free and locked reads and a proposal; the background truncation loop reacting to an admitted vertex while proposals arrive; the orphan buffer's retry ticker against parking) are executed on the real code by the engine's scheduler with a happens-before tracker: vector clocks over goroutine start, channel operations, mutex release/acquire, atomic store->load and the atomic storage models; every load/store of a heap cell (whole-struct accesses also count as accesses to each field) and every map operation is recorded; two accesses to one cell, one a write, unordered by happens-before in any explored schedule = race. Candidates are confirmed natively by repeating the workload under `go test -race` (real race detector).",
+  ref="DESIGN.md §3 C18",
+  technique="happens-before (vector clock) analysis of the repository's go/ssa executed under gosym's scheduler over a bounded number of schedules; SMT decides the data-dependent branches (symbolic amounts); candidates confirmed with the Go race detector",
+  bounds=["6 workloads, 2-4 goroutines each plus the dependency's walker goroutines; up to 1500 (quick) / 20000 (thorough) schedules per workload (bounded search, not exhaustive: every explored schedule stands for its happens-before class)"],
+  outside=["accesses inside badger, bigcache and gRPC (their models are atomic sections by assumption)", "workloads other than the listed ones; the gossip node's peer map (gossiper.nodes is iterated without the lock in processLackingParent: observation, gossip package not part of these workloads)", "before the DAG is loaded (CreateGenesis / LoadDag write dagLoaded under the lock while DagLoaded reads it without)"]),
 }
 
 NA_DEFAULT = "check not built yet in this session; see DESIGN.md §6 build order"
